@@ -326,8 +326,9 @@ Inductive hop :=
 | HBackwards (j : nat) (r : option nat) (x : option Q)     (* derived[j].backwards(r, x) *)
 | HIAdd (j k : nat)                                        (* derived[j] += derived[k] *)
 | HISub (j k : nat)                                        (* derived[j] -= derived[k] *)
-| HCab (j : nat) (sol : option vec)                        (* derived[j].correct_atomic_balance(constants); sol: what the
-                                                              linear solver returns, per chemical and by mol (None: it raises) *)
+| HCab (j n : nat) (formula : list vec) (consts : option (list nat)) (Aobs : list vec) (bobs : vec) (sol : option vec)
+      (* derived[j].correct_atomic_balance(constants) on a package of n chemicals whose formula array has the rows
+         [formula]; numpy.linalg was called with (Aobs, bobs) and returned sol (None: it raised / rank deficient) *)
 | HSetCopy (lo n : nat) (b : option bool).                 (* the set holding members lo..lo+n-1 is copied: set.copy(b) *)
 
 Record hstate := mkhs { hp : heap; derived : list href }.
@@ -358,26 +359,88 @@ Definition do_iop (mws : vec) (sub : bool) (s : hstate) (j : nat) (a b : href) :
   let c := length (hp s) in
   Ok (mkhs (hp s ++ [st r']) (upd (derived s) j (href_of c r'))).
 
-(* correct_atomic_balance: the solved molar coefficients are written IN PLACE into the reaction's own
-   array (times MW on a weight basis; for a phase-tagged reaction only where an entry was non-zero),
-   then _rescale, in place too *)
+(* ---------- correct_atomic_balance (_reaction.py:926-1036) ----------
+   stoichiometry_by_mol (divided by MW on a weight basis, summed over the phase rows when phase-tagged);
+   constant_index (the given chemicals, the reactant's chemical when none are given);
+   chemical_index = where(by_mol) \ constant_index; b = -(formula[:, constant] * by_mol[constant]).sum(1);
+   atomic_index = rows with any(formula * by_mol); A = formula[atomic_index][:, chemical_index]; the solve is an ORACLE
+   (numpy.linalg.solve when A is square, lstsq + rank test otherwise); by_mol[chemical_index] = x. *)
+Definition mem_nat (i : nat) (l : list nat) : bool := existsb (Nat.eqb i) l.
+
+Fixpoint colsum (n P : nat) (v : vec) : vec :=
+  match P with
+  | O => vzero n
+  | S P' => vadd (firstn n v) (colsum n P' (skipn n v))
+  end.
+
+Definition cab_by_mol (n : nat) (mws : vec) (r : rxn) : vec :=
+  let s := if wt r then map2 Qdiv (st r) mws else st r in
+  match phases r with [] => s | _ :: _ => colsum n (length (phases r)) s end.
+
+Definition cab_consts (n : nat) (r : rxn) (consts : option (list nat)) : list nat :=
+  match consts with
+  | Some (c :: l) => c :: l
+  | _ => [match phases r with [] => ridx r | _ :: _ => Nat.modulo (ridx r) n end]
+  end.
+
+Definition cab_unknown (by_mol : vec) (cs : list nat) : list nat :=
+  filter (fun j => negb (qzerob (nthq by_mol j)) && negb (mem_nat j cs)) (seq 0 (length by_mol)).
+
+(* the selected rows of the formula array themselves *)
+Definition cab_rows (formula : list vec) (by_mol : vec) : list vec :=
+  filter (fun F => any_nonzero (vmul F by_mol)) formula.
+
+Definition cab_b (rows : list vec) (by_mol : vec) (cs : list nat) : vec :=
+  map (fun F => - qsum (map (fun c => nthq F c * nthq by_mol c) cs)) rows.
+
+Definition cab_A (rows : list vec) (unknown : list nat) : list vec :=
+  map (fun F => map (nthq F) unknown) rows.
+
+Fixpoint scatter (v : vec) (idx : list nat) (x : vec) : vec :=
+  match idx, x with
+  | i :: idx', y :: x' => scatter (upd v i y) idx' x'
+  | _, _ => v
+  end.
+
+(* molar coefficients per chemical after the solve *)
+Definition cab_solve (solver : list vec -> vec -> option vec) (n : nat) (formula : list vec) (mws : vec)
+           (r : rxn) (consts : option (list nat)) : res vec :=
+  let by_mol := cab_by_mol n mws r in
+  let cs := cab_consts n r consts in
+  let unknown := cab_unknown by_mol cs in
+  let rows := cab_rows formula by_mol in
+  match solver (cab_A rows unknown) (cab_b rows by_mol cs) with
+  | None => Err ERuntime
+  | Some x => if Nat.eqb (length x) (length unknown) then Ok (scatter by_mol unknown x) else Err EOther
+  end.
+
+(* the coefficients are written IN PLACE into the reaction's own array (times MW on a weight basis; for a
+   phase-tagged reaction only where an entry was non-zero), then _rescale, in place too *)
 Fixpoint cab_fill (n : nat) (phase_tagged : bool) (v : vec) (old : vec) (k : nat) : vec :=
   match old with
   | [] => []
   | x :: t => (if phase_tagged && qzerob x then 0 else nthq v (Nat.modulo k n)) :: cab_fill n phase_tagged v t (S k)
   end.
 
-Definition do_cab (mws : vec) (s : hstate) (j : nat) (d : href) (sol : option vec) : res hstate :=
-  match sol with
-  | None => Err ERuntime
-  | Some v =>
-      let n := length v in
-      let r := as_rxn (hp s) d in
-      let v' := if h_wt d then vmul v mws else v in
-      let filled := cab_fill n (negb (match h_ph d with [] => true | _ => false end)) v' (st r) 0 in
-      do r' <- rescale (set_st r filled);
-      Ok (mkhs (upd (hp s) (hcell d) (st r')) (derived s))
-  end.
+Definition cab_apply (solver : list vec -> vec -> option vec) (n : nat) (formula : list vec) (mws : vec)
+           (r : rxn) (consts : option (list nat)) : res rxn :=
+  do v <- cab_solve solver n formula mws r consts;
+  let v' := if wt r then vmul v mws else v in
+  let filled := cab_fill n (negb (match phases r with [] => true | _ => false end)) v' (st r) 0 in
+  rescale (set_st r filled).
+
+(* the oracle as observed in one call: asked (Aobs, bobs), it answered sol.  Asked anything else the
+   table has no answer, which the model turns into a wrong-length vector (the step then fails with EOther,
+   and the correspondence reports the disagreement). *)
+Definition mat_approxb (a b : list vec) : bool := list_eqb vapproxb a b.
+Definition table_solver (Aobs : list vec) (bobs : vec) (sol : option vec) (A : list vec) (b : vec) : option vec :=
+  if mat_approxb A Aobs && vapproxb b bobs then sol
+  else Some (repeat 0 (S (match A with [] => 0 | row :: _ => length row end))).
+
+Definition do_cab (mws : vec) (s : hstate) (d : href) (n : nat) (formula : list vec) (consts : option (list nat))
+           (Aobs : list vec) (bobs : vec) (sol : option vec) : res hstate :=
+  do r' <- cab_apply (table_solver Aobs bobs sol) n formula mws (as_rxn (hp s) d) consts;
+  Ok (mkhs (upd (hp s) (hcell d) (st r')) (derived s)).
 
 (* set.copy(b): every row is copied to a fresh array and converted there *)
 Fixpoint do_setcopy (mws : vec) (s : hstate) (srcs : list href) (b : option bool) : res hstate :=
@@ -407,9 +470,9 @@ Definition hstep (mws : vec) (members : list href) (s : hstate) (o : hop) : res 
       | Some a, Some b => do_iop mws true s j a b
       | _, _ => Err EIndex
       end
-  | HCab j sol =>
+  | HCab j n formula consts Aobs bobs sol =>
       match nth_error (derived s) j with
-      | Some d => do_cab mws s j d sol
+      | Some d => do_cab mws s d n formula consts Aobs bobs sol
       | None => Err EIndex
       end
   | HSetCopy lo n b => do_setcopy mws s (firstn n (skipn lo members)) b
@@ -529,3 +592,206 @@ Definition retarget_obj (size : nat) (tbl : list (option nat)) (o : res robj) : 
   do ob <- o;
   do l <- build_all (map (retarget size tbl) (flat_members ob));
   Ok (rebuild ob l).
+
+(* ====================================================================================== *)
+(* Deepening round: full state after an exception on another package, force_reaction,
+   conversion, nested reaction systems.                                                      *)
+
+(* ---------- what a stream of another package holds after the call, exception or not ----------
+   as_material_array swaps the stream's molar data for a NEW buffer on the reaction's package
+   (reset_chemicals: the buffer is filled entry by entry, the indexer's chemicals are switched only after the
+   loop) and nothing restores it when an exception follows.  Observed: the exception, the molar data the stream
+   holds afterwards, and whether its indexer then refers to the reaction's chemicals. *)
+Fixpoint remap_from_st (tbl : list (option nat)) (d : vec) (acc : vec) : vec * bool :=
+  match tbl, d with
+  | t :: tbl', x :: d' =>
+      if qzerob x then remap_from_st tbl' d' acc
+      else match t with
+           | Some i => remap_from_st tbl' d' (upd acc i x)
+           | None => (acc, true)          (* UndefinedChemicalAlias half way: the buffer so far *)
+           end
+  | _, _ => (acc, false)
+  end.
+
+Definition call_other_full (mws : vec) (o : robj) (nA : nat) (fwd bwd : list (option nat)) (mol : vec)
+  : option err * vec * bool :=
+  let (a, failed) := remap_from_st fwd mol (vzero nA) in
+  if failed then (Some EKey, a, false)
+  else
+    let (e, a') := call_stream mws o a in
+    match e with
+    | Some e => (Some e, a', true)
+    | None =>
+        let (b, failed') := remap_from_st bwd a' (vzero (length mol)) in
+        if failed' then (Some EKey, b, true) else (None, b, false)
+    end.
+
+Definition full_eqb (a : option err * vec * bool) (e : option err) (d : vec) (lay : bool) : bool :=
+  let '(e', d', lay') := a in oerr_eqb e' e && vapproxb d' d && Bool.eqb lay' lay.
+
+(* ---------- force_reaction (and __call__ with CHECK_FEASIBILITY off): _reaction.py:520-528,
+   functional.remove_negligible_negative_values (functional.py:155-163) ----------
+   negative_index lists the negative entries; when sum|v| > 1e-16, negligible[k] = (k-th negative)/sum > -1e-16 is a
+   boolean array over the NEGATIVES, and `material[negligible] = 0.` uses it as a mask on the material itself
+   (SparseVector.__setitem__: index = mask.nonzero()), so it deletes entry k for every negligible k-th negative.
+   Phase-less (1-d) material only.  The negatives are taken in index order (the dictionary order of the
+   implementation coincides with it when the feed holds every chemical that ends up negative). *)
+Definition tiny : Q := 2028240960365167 # 20282409603651670423947251286016.   (* the double nearest 1e-16 *)
+Definition abs_sum (v : vec) : Q := qsum (map Qabs v).
+Definition neg_vals (v : vec) : vec := filter (fun x => qltb x 0) v.
+Fixpoint flag_pos (k : nat) (negs : vec) (total : Q) : list nat :=
+  match negs with
+  | [] => []
+  | x :: t => if qltb (- tiny) (x / total) then k :: flag_pos (S k) t total else flag_pos (S k) t total
+  end.
+Definition zero_at (v : vec) (idx : list nat) : vec := fold_left (fun acc i => upd acc i 0) idx v.
+
+Definition remove_negligible (v : vec) : vec :=
+  match neg_vals v with
+  | [] => v
+  | negs => if qltb tiny (abs_sum v) then zero_at v (flag_pos 0 negs (abs_sum v)) else clampv v
+  end.
+
+Definition force_process (o : robj) (v : vec) : option err * vec :=
+  let (v1, e) := react_obj o v in
+  match e with
+  | Some e => (Some e, v1)
+  | None => (None, remove_negligible v1)
+  end.
+
+Definition force_stream (mws : vec) (o : robj) (mol : vec) : option err * vec :=
+  if obasis o then
+    let (e, v) := force_process o (to_mass mws mol) in
+    match e with None => (None, of_mass mws v) | Some e => (Some e, mol) end
+  else force_process o mol.
+
+Definition force_call (mws : vec) (o : robj) (m : material) : option err * vec :=
+  match m with
+  | MStream mol => force_stream mws o mol
+  | MOther nA fwd bwd mol =>
+      match remap nA fwd mol with
+      | Err e => (Some e, [])
+      | Ok a =>
+          let (e, a') := force_stream mws o a in
+          match e with
+          | Some e => (Some e, [])
+          | None => match remap (length mol) bwd a' with Err e => (Some e, []) | Ok b => (None, b) end
+          end
+      end
+  | MBadPhases mol => (Some EValue, mol)
+  | MNumpy a =>
+      if negb (len_ok o a) then (Some EValue, a)
+      else let (e, v) := force_process o a in
+           match e with None => (None, v) | Some e => (Some e, a) end
+  | MNumpyBadDim a => (Some EValue, a)
+  | MSparse a => if negb (len_ok o a) then (Some EValue, a) else force_process o a
+  | MMassView mol =>
+      let (e, v) := force_process o (to_mass mws mol) in
+      match e with None => (None, of_mass mws v) | Some e => (Some e, mol) end
+  end.
+
+(* ---------- conversion(material): the change the reaction would make; the material is left alone ----------
+   Reaction._conversion, ParallelReaction._conversion, SeriesReaction._conversion, ReactionSystem._conversion
+   (final - material on a copy).  On a weight basis a stream is seen through its mass flows. *)
+Definition conv_single (r : rxn) (m : vec) : vec := vscale (nthq m (ridx r) * X r) (st r).
+Fixpoint conv_parallel_from (feed : vec) (rs : list rxn) (acc : vec) : vec :=
+  match rs with
+  | [] => acc
+  | r :: t => conv_parallel_from feed t (vadd acc (vscale (nthq feed (ridx r) * X r) (st r)))
+  end.
+Definition conv_rset (s : rset) (m : vec) : vec :=
+  match s with
+  | Single r => conv_single r m
+  | Parallel rs => conv_parallel_from m rs (vscale 0 m)
+  | Series rs => vsub (react_series rs m) m
+  end.
+Definition conv_obj (o : robj) (m : vec) : res vec :=
+  match o with
+  | Simple _ s => Ok (conv_rset s m)
+  | System b ps => let (f, e) := react_parts b ps m in
+                   match e with Some e => Err e | None => Ok (vsub f m) end
+  end.
+(* (what is returned, the material afterwards) *)
+Definition conversion_call (mws : vec) (o : robj) (m : material) : res vec * vec :=
+  match m with
+  | MStream mol => (conv_obj o (if obasis o then to_mass mws mol else mol), mol)
+  | MNumpy a | MSparse a => (if negb (len_ok o a) then Err EValue else conv_obj o a, a)
+  | MMassView mol => (conv_obj o (to_mass mws mol), mol)
+  | MOther _ _ _ mol | MBadPhases mol | MNumpyBadDim mol => (Err EOther, mol)     (* not modelled *)
+  end.
+
+Definition conv_eqb (a : res vec * vec) (e : option err) (c d : vec) : bool :=
+  match fst a, e with
+  | Ok v, None => vapproxb v c
+  | Err x, Some y => err_eqb x y
+  | _, _ => false
+  end && vapproxb (snd a) d.
+
+(* ---------- nested reaction systems: ReactionSystem(ReactionSystem(...), Reaction, ...) ----------
+   Every ReactionSystem keeps the basis found when IT was constructed and compares the current _basis of each of
+   its own parts with it (a nested system is one part; it checks its own parts when it runs). *)
+Inductive ntree := NSet (b : bool) (s : rset) | NSys (b : bool) (ts : list ntree).
+Definition nbasis (t : ntree) : bool := match t with NSet b _ => b | NSys b _ => b end.
+
+Fixpoint nreact (t : ntree) (m : vec) : vec * option err :=
+  match t with
+  | NSet _ s => (react_rset s m, None)
+  | NSys b ts =>
+      (fix go (ts : list ntree) (m : vec) : vec * option err :=
+         match ts with
+         | [] => (m, None)
+         | t :: rest =>
+             if Bool.eqb (nbasis t) b then
+               let (m', e) := nreact t m in
+               match e with None => go rest m' | Some e => (m', Some e) end
+             else (m, Some ERuntime)
+         end) ts m
+  end.
+
+Definition nprocess (t : ntree) (v : vec) : option err * vec :=
+  let (v1, e) := nreact t v in
+  match e with
+  | Some e => (Some e, v1)
+  | None => if qltb (neg_sum v1) (- eps) then (Some EInfeasible, v1) else (None, clampv v1)
+  end.
+
+Definition ncall_stream (mws : vec) (t : ntree) (mol : vec) : option err * vec :=
+  if nbasis t then
+    let (e, v) := nprocess t (to_mass mws mol) in
+    match e with None => (None, of_mass mws v) | Some e => (Some e, mol) end
+  else nprocess t mol.
+
+(* the parts of a tree in the order in which they act *)
+Fixpoint nflatten (t : ntree) : list (bool * rset) :=
+  match t with
+  | NSet b s => [(b, s)]
+  | NSys _ ts => flat_map nflatten ts
+  end.
+
+(* ReactionSystem.__init__: all parts must agree on the basis (phases and chemicals agree by construction here) *)
+Definition mk_nsys (ts : list (res ntree)) : res ntree :=
+  do l <- fold_right (fun r acc => do x <- r; do l <- acc; Ok (x :: l)) (Ok []) ts;
+  match l with
+  | [] => Err EValue
+  | t :: rest => if forallb (fun x => Bool.eqb (nbasis x) (nbasis t)) rest then Ok (NSys (nbasis t) l) else Err EValue
+  end.
+Definition mk_nset (p : res (bool * rset)) : res ntree := do x <- p; Ok (NSet (fst x) (snd x)).
+
+(* part.basis = b on a Reaction that sits at [path] (child indices from the root) *)
+Fixpoint nrebase (mws : vec) (t : ntree) (path : list nat) (b : bool) : res ntree :=
+  match path, t with
+  | [], NSet _ (Single r) => do r' <- set_basis mws r b; Ok (NSet b (Single r'))
+  | i :: rest, NSys b0 ts =>
+      match nth_error ts i with
+      | Some c => do c' <- nrebase mws c rest b; Ok (NSys b0 (upd ts i c'))
+      | None => Err EIndex
+      end
+  | _, _ => Err EType
+  end.
+
+Definition ncase_eqb (t : res ntree) (run : ntree -> option err * vec)
+           (ctor_err : option err) (e : option err) (d : vec) : bool :=
+  match t with
+  | Err x => oerr_eqb (Some x) ctor_err
+  | Ok tr => oerr_eqb None ctor_err && outcome_eqb (run tr) e d
+  end.
